@@ -3,23 +3,475 @@ C08 — the independent membership oracle (span saturation) is exact.
 -/
 import Pfl.Proofs.CFGBase
 import Pfl.Oracle.CfgMem
+import Mathlib.Data.List.Basic
+import Mathlib.Data.List.Nodup
 namespace Pfl
 namespace CFG
+
+namespace C08
+
+/-! ### positions of sub-words -/
+
+/-- `v` occurs in `w` starting at position `i` -/
+def At (w : List String) (i : Nat) (v : List String) : Prop :=
+  ∃ a b, w = a ++ v ++ b ∧ a.length = i
+
+theorem at_nil {w : List String} {i : Nat} (h : i ≤ w.length) : At w i [] :=
+  ⟨w.take i, w.drop i, by simp, by simp; omega⟩
+
+theorem at_le {w : List String} {i : Nat} {v : List String} (h : At w i v) :
+    i + v.length ≤ w.length := by
+  obtain ⟨a, b, rfl, rfl⟩ := h
+  simp only [List.length_append]; omega
+
+theorem at_append {w : List String} {i : Nat} {v₁ v₂ : List String}
+    (h₁ : At w i v₁) (h₂ : At w (i + v₁.length) v₂) : At w i (v₁ ++ v₂) := by
+  obtain ⟨a, b, rfl, rfl⟩ := h₁
+  obtain ⟨a', b', e, hl⟩ := h₂
+  have e' : (a ++ v₁) ++ b = a' ++ (v₂ ++ b') := by rw [e]; simp
+  obtain ⟨ha, hb⟩ := List.append_inj e' (by simp [hl])
+  exact ⟨a, b', by simp [hb], rfl⟩
+
+theorem at_split {w : List String} {i : Nat} {v₁ v₂ : List String}
+    (h : At w i (v₁ ++ v₂)) : At w i v₁ ∧ At w (i + v₁.length) v₂ := by
+  obtain ⟨a, b, rfl, rfl⟩ := h
+  exact ⟨⟨a, v₂ ++ b, by simp, rfl⟩, ⟨a ++ v₁, b, by simp, by simp⟩⟩
+
+theorem at_singleton {w : List String} {i : Nat} {t : String} :
+    At w i [t] ↔ w[i]? = some t := by
+  constructor
+  · rintro ⟨a, b, rfl, rfl⟩
+    simp
+  · intro h
+    obtain ⟨hi, ht⟩ := List.getElem?_eq_some_iff.mp h
+    refine ⟨w.take i, w.drop (i + 1), ?_, by simp; omega⟩
+    rw [List.append_assoc, List.singleton_append, ← ht, ← List.drop_eq_getElem_cons hi,
+      List.take_append_drop]
+
+theorem at_zero_full {w v : List String} (h : At w 0 v) (hl : v.length = w.length) : v = w := by
+  obtain ⟨a, b, rfl, ha⟩ := h
+  have : a = [] := List.length_eq_zero_iff.mp ha
+  subst this
+  have : b = [] := by
+    apply List.length_eq_zero_iff.mp
+    simp only [List.length_append, List.length_nil] at hl; omega
+  subst this
+  simp
+
+theorem at_full (w : List String) : At w 0 w := ⟨[], [], by simp, rfl⟩
+
+/-! ### generic facts on folds of extending functions -/
+
+theorem foldl_extends {α β : Type} (f : List α → β → List α)
+    (hf : ∀ S b, ∃ T, f S b = S ++ T) (l : List β) (S : List α) :
+    ∃ T, l.foldl f S = S ++ T := by
+  induction l generalizing S with
+  | nil => exact ⟨[], by simp⟩
+  | cons b l ih =>
+    obtain ⟨T₁, h₁⟩ := hf S b
+    obtain ⟨T₂, h₂⟩ := ih (f S b)
+    exact ⟨T₁ ++ T₂, by rw [List.foldl_cons, h₂, h₁, List.append_assoc]⟩
+
+theorem foldl_fix {α β : Type} (f : List α → β → List α)
+    (hf : ∀ S b, ∃ T, f S b = S ++ T) (l : List β) (S : List α)
+    (h : (l.foldl f S).length = S.length) : ∀ b ∈ l, f S b = S := by
+  induction l generalizing S with
+  | nil => intro b hb; cases hb
+  | cons b l ih =>
+    obtain ⟨T₁, h₁⟩ := hf S b
+    obtain ⟨T₂, h₂⟩ := foldl_extends f hf l (f S b)
+    rw [List.foldl_cons] at h
+    have hT : T₁ = [] := by
+      apply List.length_eq_zero_iff.mp
+      rw [h₂, h₁] at h
+      simp only [List.length_append] at h; omega
+    have hS : f S b = S := by rw [h₁, hT]; simp
+    intro c hc
+    rcases List.mem_cons.mp hc with rfl | hc
+    · exact hS
+    · rw [hS] at h
+      exact ih S h c hc
+
+theorem extends_fix {α : Type} {S S' : List α} (he : ∃ T, S' = S ++ T)
+    (h : S'.length = S.length) : S' = S := by
+  obtain ⟨T, rfl⟩ := he
+  have : T = [] := by
+    apply List.length_eq_zero_iff.mp
+    simp only [List.length_append] at h; omega
+  simp [this]
+
+theorem foldl_inv {α β : Type} (P : α → Prop) (f : α → β → α) (l : List β)
+    (hf : ∀ S b, b ∈ l → P S → P (f S b)) (S : α) (h : P S) : P (l.foldl f S) := by
+  induction l generalizing S with
+  | nil => exact h
+  | cons b l ih =>
+    rw [List.foldl_cons]
+    exact ih (fun S c hc => hf S c (List.mem_cons_of_mem _ hc)) _ (hf S b (by simp) h)
+
+/-! ### the three levels of `spanStep` -/
+
+def addSpan (X : String) (i : Nat) (S : List Span) (j : Nat) : List Span :=
+  if (X, i, j) ∈ S then S else S ++ [(X, i, j)]
+
+def inner (w : List String) (p : Prod) (S : List Span) (i : Nat) : List Span :=
+  (matchBody S w p.2 i).foldl (addSpan p.1 i) S
+
+def mid (w : List String) (S : List Span) (p : Prod) : List Span :=
+  (List.range (w.length + 1)).foldl (inner w p) S
+
+theorem spanStep_eq (G : CFG) (w : List String) (S : List Span) :
+    spanStep G w S = G.prods.foldl (mid w) S := rfl
+
+theorem addSpan_extends (X : String) (i : Nat) (S : List Span) (j : Nat) :
+    ∃ T, addSpan X i S j = S ++ T := by
+  unfold addSpan
+  split
+  · exact ⟨[], by simp⟩
+  · exact ⟨_, rfl⟩
+
+theorem addSpan_fix {X : String} {i : Nat} {S : List Span} {j : Nat}
+    (h : addSpan X i S j = S) : (X, i, j) ∈ S := by
+  unfold addSpan at h
+  split at h
+  · assumption
+  · have := congrArg List.length h
+    simp at this
+
+theorem inner_extends (w : List String) (p : Prod) (S : List Span) (i : Nat) :
+    ∃ T, inner w p S i = S ++ T :=
+  foldl_extends _ (addSpan_extends p.1 i) _ S
+
+theorem mid_extends (w : List String) (S : List Span) (p : Prod) :
+    ∃ T, mid w S p = S ++ T :=
+  foldl_extends _ (inner_extends w p) _ S
+
+theorem spanStep_extends (G : CFG) (w : List String) (S : List Span) :
+    ∃ T, spanStep G w S = S ++ T :=
+  foldl_extends _ (mid_extends w) _ S
+
+/-- a set of spans is closed under the productions -/
+def Closed (G : CFG) (w : List String) (S : List Span) : Prop :=
+  ∀ p ∈ G.prods, ∀ i ≤ w.length, ∀ j ∈ matchBody S w p.2 i, (p.1, i, j) ∈ S
+
+theorem closed_of_fix (G : CFG) (w : List String) (S : List Span)
+    (h : (spanStep G w S).length = S.length) : Closed G w S := by
+  intro p hp i hi j hj
+  have h1 : mid w S p = S := foldl_fix _ (mid_extends w) _ S h p hp
+  have h2 : inner w p S i = S :=
+    foldl_fix _ (inner_extends w p) _ S (by rw [show List.foldl (inner w p) S _ = mid w S p from rfl, h1]) i
+      (List.mem_range.mpr (by omega))
+  have h3 : addSpan p.1 i S j = S :=
+    foldl_fix _ (addSpan_extends p.1 i) _ S (by rw [show List.foldl (addSpan p.1 i) S _ = inner w p S i from rfl, h2]) j hj
+  exact addSpan_fix h3
+
+/-! ### soundness -/
+
+/-- the span fact is true -/
+def Good (G : CFG) (w : List String) (s : Span) : Prop :=
+  ∃ v, At w s.2.1 v ∧ s.2.2 = s.2.1 + v.length ∧ G.Gen (.var s.1) v
+
+def Sound (G : CFG) (w : List String) (S : List Span) : Prop := ∀ s ∈ S, Good G w s
+
+theorem matchBody_sound (G : CFG) (w : List String) (S : List Span) (hS : Sound G w S)
+    (body : List Sym) (i j : Nat) (hi : i ≤ w.length) (hj : j ∈ matchBody S w body i) :
+    ∃ v, At w i v ∧ j = i + v.length ∧ G.GenList body v := by
+  induction body generalizing i with
+  | nil =>
+    simp only [matchBody, List.mem_singleton] at hj
+    subst hj
+    exact ⟨[], at_nil hi, rfl, .nil⟩
+  | cons s rest ih =>
+    cases s with
+    | ter t =>
+      simp only [matchBody] at hj
+      split at hj
+      · rename_i ht
+        have hi' : i + 1 ≤ w.length := by
+          have := (List.getElem?_eq_some_iff.mp ht).1; omega
+        obtain ⟨v, hv, rfl, hg⟩ := ih (i + 1) hi' hj
+        have h1 : At w i [t] := at_singleton.mpr ht
+        exact ⟨[t] ++ v, at_append h1 hv, by simp; omega, .cons (.ter t) hg⟩
+      · cases hj
+    | var u =>
+      simp only [matchBody, List.mem_flatMap, List.mem_filterMap] at hj
+      obtain ⟨k, ⟨s, hs, hk⟩, hj⟩ := hj
+      split at hk
+      · rename_i hc
+        obtain ⟨rfl, rfl⟩ := hc
+        cases hk
+        obtain ⟨v₁, hv₁, hk₁, hg₁⟩ := hS s hs
+        have hk' : s.2.2 ≤ w.length := by have := at_le hv₁; omega
+        obtain ⟨v₂, hv₂, rfl, hg₂⟩ := ih s.2.2 hk' hj
+        rw [hk₁] at hv₂
+        exact ⟨v₁ ++ v₂, at_append hv₁ hv₂, by simp; omega, .cons hg₁ hg₂⟩
+      · cases hk
+
+theorem addSpan_sound (G : CFG) (w : List String) (X : String) (i : Nat) (S : List Span) (j : Nat)
+    (hS : Sound G w S) (hg : Good G w (X, i, j)) : Sound G w (addSpan X i S j) := by
+  unfold addSpan
+  split
+  · exact hS
+  · intro s hs
+    rcases List.mem_append.mp hs with hs | hs
+    · exact hS s hs
+    · simp only [List.mem_singleton] at hs
+      subst hs; exact hg
+
+theorem inner_sound (G : CFG) (w : List String) (p : Prod) (hp : p ∈ G.prods) (S : List Span)
+    (i : Nat) (hi : i ≤ w.length) (hS : Sound G w S) : Sound G w (inner w p S i) := by
+  have hall : ∀ j ∈ matchBody S w p.2 i, Good G w (p.1, i, j) := by
+    intro j hj
+    obtain ⟨v, hv, rfl, hg⟩ := matchBody_sound G w S hS p.2 i j hi hj
+    exact ⟨v, hv, rfl, .var (body := p.2) hp hg⟩
+  unfold inner
+  exact foldl_inv (Sound G w) _ _ (fun S' j hj hS' => addSpan_sound G w _ _ _ _ hS' (hall j hj)) S hS
+
+theorem mid_sound (G : CFG) (w : List String) (p : Prod) (hp : p ∈ G.prods) (S : List Span)
+    (hS : Sound G w S) : Sound G w (mid w S p) := by
+  unfold mid
+  refine foldl_inv (Sound G w) _ _ (fun S' i hi hS' => inner_sound G w p hp S' i ?_ hS') S hS
+  have := List.mem_range.mp hi; omega
+
+theorem spanStep_sound (G : CFG) (w : List String) (S : List Span) (hS : Sound G w S) :
+    Sound G w (spanStep G w S) := by
+  rw [spanStep_eq]
+  exact foldl_inv (Sound G w) _ _ (fun S' p hp hS' => mid_sound G w p hp S' hS') S hS
+
+theorem saturate_spec (G : CFG) (w : List String) (fuel : Nat) (S S' : List Span)
+    (hS : Sound G w S) (h : saturate G w fuel S = some S') :
+    Sound G w S' ∧ Closed G w S' := by
+  induction fuel generalizing S with
+  | zero => simp [saturate] at h
+  | succ fuel ih =>
+    simp only [saturate] at h
+    split at h
+    · rename_i hl
+      rw [← Option.some.inj h]
+      exact ⟨hS, closed_of_fix G w S hl⟩
+    · exact ih _ (spanStep_sound G w S hS) h
+
+/-! ### completeness -/
+
+mutual
+theorem gen_complete {G : CFG} {w : List String} {S : List Span} (hC : Closed G w S) :
+    ∀ {s : Sym} {v : List String}, G.Gen s v → ∀ i, At w i v → ∀ rest k,
+      k ∈ matchBody S w rest (i + v.length) → k ∈ matchBody S w (s :: rest) i
+  | _, _, .ter t => by
+    intro i hi rest k hk
+    have := at_singleton.mp hi
+    simp only [matchBody, this, if_true]
+    exact hk
+  | _, _, .var (h := X) (body := body) (w := v) hp hl => by
+    intro i hi rest k hk
+    have h1 := genList_complete hC hl i hi
+    have h2 := hC (X, body) hp i (by have := at_le hi; omega) _ h1
+    simp only [matchBody, List.mem_flatMap, List.mem_filterMap]
+    exact ⟨i + v.length, ⟨(X, i, i + v.length), h2, by simp⟩, hk⟩
+theorem genList_complete {G : CFG} {w : List String} {S : List Span} (hC : Closed G w S) :
+    ∀ {u : List Sym} {v : List String}, G.GenList u v → ∀ i, At w i v →
+      i + v.length ∈ matchBody S w u i
+  | _, _, .nil => by
+    intro i _
+    simp [matchBody]
+  | _, _, .cons (w₁ := v₁) (w₂ := v₂) hs hu => by
+    intro i hi
+    obtain ⟨h1, h2⟩ := at_split hi
+    have := genList_complete hC hu _ h2
+    have := gen_complete hC hs i h1 _ _ this
+    rw [List.length_append, ← Nat.add_assoc]
+    exact this
+end
+
+theorem mem_of_closed {G : CFG} {w : List String} {S : List Span} (hC : Closed G w S)
+    {X : String} (h : G.Gen (.var X) w) : (X, 0, w.length) ∈ S := by
+  obtain ⟨body, hp, hl⟩ := gen_var_iff.mp h
+  have := genList_complete hC hl 0 (at_full w)
+  have := hC (X, body) hp 0 (Nat.zero_le _) _ this
+  simpa using this
+
+theorem gen_of_sound {G : CFG} {w : List String} {S : List Span} (hS : Sound G w S)
+    {X : String} (h : (X, 0, w.length) ∈ S) : G.Gen (.var X) w := by
+  obtain ⟨v, hv, hl, hg⟩ := hS _ h
+  simp only [Nat.zero_add] at hl hv
+  rw [← at_zero_full hv hl.symm]
+  exact hg
+
+/-! ### the bounded language -/
+
+theorem nodup_eraseDups {α : Type} [DecidableEq α] (l : List α) : l.eraseDups.Nodup := by
+  generalize hn : l.length = n
+  induction n using Nat.strongRecOn generalizing l with
+  | _ n ih =>
+    cases l with
+    | nil => simp
+    | cons a as =>
+      rw [List.eraseDups_cons, List.nodup_cons]
+      refine ⟨?_, ?_⟩
+      · simp [List.mem_eraseDups, List.mem_filter]
+      · refine ih _ ?_ _ rfl
+        have := List.length_filter_le (fun b => !b == a) as
+        simp at hn; omega
+
+theorem mem_wordsOfLenS (syms : List String) (k : Nat) (w : List String) :
+    w ∈ wordsOfLenS syms k ↔ w.length = k ∧ ∀ a ∈ w, a ∈ syms := by
+  induction k generalizing w with
+  | zero =>
+    simp only [wordsOfLenS, List.mem_singleton, List.length_eq_zero_iff]
+    constructor
+    · rintro rfl; simp
+    · rintro ⟨h, _⟩; exact h
+  | succ k ih =>
+    simp only [wordsOfLenS, List.mem_flatMap, List.mem_map]
+    constructor
+    · rintro ⟨u, hu, a, ha, rfl⟩
+      obtain ⟨h1, h2⟩ := (ih u).mp hu
+      refine ⟨by simp [h1], ?_⟩
+      intro b hb
+      rcases List.mem_append.mp hb with hb | hb
+      · exact h2 b hb
+      · simp at hb; subst hb; exact ha
+    · rintro ⟨hl, hs⟩
+      have hne : w ≠ [] := by intro h; subst h; simp at hl
+      refine ⟨w.dropLast, (ih _).mpr ⟨by simp [hl], ?_⟩, w.getLast hne, ?_, ?_⟩
+      · intro a ha; exact hs a (List.dropLast_subset _ ha)
+      · exact hs _ (List.getLast_mem hne)
+      · exact List.dropLast_append_getLast hne
+
+theorem wordsOfLenS_nodup (syms : List String) (hs : syms.Nodup) (k : Nat) :
+    (wordsOfLenS syms k).Nodup := by
+  induction k with
+  | zero => simp [wordsOfLenS]
+  | succ k ih =>
+    simp only [wordsOfLenS]
+    rw [List.nodup_flatMap]
+    refine ⟨?_, ?_⟩
+    · intro u _
+      refine List.Nodup.map ?_ hs
+      intro a b hab
+      have := List.append_cancel_left hab
+      simpa using this
+    · refine List.Pairwise.imp_of_mem ?_ (List.Nodup.pairwise_of_forall_ne ih (fun _ _ _ _ h => h))
+      intro u v _ _ huv
+      simp only [Function.onFun, List.disjoint_left, List.mem_map]
+      rintro w ⟨a, _, rfl⟩ ⟨b, _, hb⟩
+      exact huv (List.append_inj_left' hb rfl).symm
+
+/-- the candidate words enumerated by `langUpTo` -/
+def cands (G : CFG) (n : Nat) : List (List String) :=
+  (List.range (n + 1)).flatMap fun k => wordsOfLenS G.ters.eraseDups k
+
+theorem mem_cands (G : CFG) (n : Nat) (w : List String) :
+    w ∈ cands G n ↔ w.length ≤ n ∧ ∀ a ∈ w, a ∈ G.ters := by
+  simp only [cands, List.mem_flatMap, List.mem_range, mem_wordsOfLenS, List.mem_eraseDups]
+  constructor
+  · rintro ⟨k, hk, rfl, h⟩; exact ⟨by omega, h⟩
+  · rintro ⟨hl, h⟩; exact ⟨_, by omega, rfl, h⟩
+
+theorem cands_nodup (G : CFG) (n : Nat) : (cands G n).Nodup := by
+  unfold cands
+  rw [List.nodup_flatMap]
+  refine ⟨?_, ?_⟩
+  · intro k _
+    exact wordsOfLenS_nodup _ (nodup_eraseDups _) k
+  · refine List.Pairwise.imp_of_mem ?_
+      (List.Nodup.pairwise_of_forall_ne (List.nodup_range (n := n+1)) (fun _ _ _ _ h => h))
+    intro i j _ _ hij
+    simp only [Function.onFun, List.disjoint_left, mem_wordsOfLenS]
+    rintro w ⟨h1, _⟩ ⟨h2, _⟩
+    exact hij (h1.symm.trans h2)
+
+theorem foldlM_filter {α : Type} (c : α → Option Bool) (l : List α) (acc ws : List α)
+    (h : l.foldlM (fun acc w => (c w).map fun b => if b then acc ++ [w] else acc) acc = some ws) :
+    (∀ w ∈ l, ∃ b, c w = some b) ∧ ws = acc ++ l.filter (fun w => c w == some true) := by
+  induction l generalizing acc with
+  | nil =>
+    simp only [List.foldlM_nil] at h
+    cases h
+    simp
+  | cons a l ih =>
+    simp only [List.foldlM_cons] at h
+    cases hc : c a with
+    | none => simp [hc] at h
+    | some b =>
+      simp only [hc, Option.map_some, Option.bind_eq_bind, Option.bind_some] at h
+      obtain ⟨h1, h2⟩ := ih _ h
+      refine ⟨?_, ?_⟩
+      · intro w hw
+        rcases List.mem_cons.mp hw with rfl | hw
+        · exact ⟨b, hc⟩
+        · exact h1 w hw
+      · rw [h2]
+        cases b <;> simp [hc]
+
+mutual
+theorem gen_ters {G : CFG} (hG : G.WF) :
+    ∀ {s : Sym} {v : List String}, G.Gen s v → (∀ t, s = .ter t → t ∈ G.ters) →
+      ∀ a ∈ v, a ∈ G.ters
+  | _, _, .ter t => by
+    intro h a ha
+    simp only [List.mem_singleton] at ha
+    subst ha
+    exact h _ rfl
+  | _, _, .var hp hl => by
+    intro _ a ha
+    exact genList_ters hG hl (fun t ht => hG.ter_mem _ hp t ht) a ha
+theorem genList_ters {G : CFG} (hG : G.WF) :
+    ∀ {u : List Sym} {v : List String}, G.GenList u v → (∀ t, Sym.ter t ∈ u → t ∈ G.ters) →
+      ∀ a ∈ v, a ∈ G.ters
+  | _, _, .nil => by
+    intro _ a ha; cases ha
+  | _, _, .cons hs hu => by
+    intro h a ha
+    rcases List.mem_append.mp ha with ha | ha
+    · exact gen_ters hG hs (fun t ht => h t (by simp [ht])) a ha
+    · exact genList_ters hG hu (fun t ht => h t (List.mem_cons_of_mem _ ht)) a ha
+end
+
+theorem lang_ters {G : CFG} (hG : G.WF) {w : List String} (h : G.Lang w) :
+    ∀ a ∈ w, a ∈ G.ters := by
+  obtain ⟨s, _, hg⟩ := (lang_iff_gen G w).mp h
+  exact gen_ters hG hg (fun t ht => by cases ht)
+
+end C08
+
+open C08
 
 /-- whenever the oracle answers, the answer is derivability from the start symbol -/
 theorem cfgMem_iff (G : CFG) (w : List String) (fuel : Nat) (b : Bool)
     (h : G.cfgMem w fuel = some b) : b = true ↔ G.Lang w := by
-  sorry
+  unfold cfgMem at h
+  obtain ⟨S, hS, hb⟩ := Option.map_eq_some_iff.mp h
+  obtain ⟨hsound, hclosed⟩ := saturate_spec G w fuel [] S (by intro s hs; cases hs) hS
+  rw [lang_iff_gen]
+  subst hb
+  cases hst : G.start with
+  | none => simp
+  | some s =>
+    simp only [decide_eq_true_eq, Option.some.injEq, exists_eq_left']
+    exact ⟨gen_of_sound hsound, mem_of_closed hclosed⟩
 
 /-- the bounded-language oracle lists exactly the generated words of length `≤ n` -/
 theorem mem_langUpTo_iff (G : CFG) (hG : G.WF) (n fuel : Nat) (ws : List (List String))
     (h : G.langUpTo n fuel = some ws) (w : List String) :
     w ∈ ws ↔ w.length ≤ n ∧ G.Lang w := by
-  sorry
+  obtain ⟨h1, h2⟩ := foldlM_filter (fun w => G.cfgMem w fuel) (cands G n) [] ws h
+  subst h2
+  simp only [List.nil_append, List.mem_filter, mem_cands, beq_iff_eq]
+  constructor
+  · rintro ⟨⟨hl, _⟩, hc⟩
+    exact ⟨hl, (cfgMem_iff G w fuel true hc).mp rfl⟩
+  · rintro ⟨hl, hL⟩
+    have hm : w.length ≤ n ∧ ∀ a ∈ w, a ∈ G.ters := ⟨hl, lang_ters hG hL⟩
+    refine ⟨hm, ?_⟩
+    obtain ⟨b, hb⟩ := h1 w ((mem_cands G n w).mpr hm)
+    rw [hb, (cfgMem_iff G w fuel b hb).mpr hL]
 
 theorem langUpTo_nodup (G : CFG) (n fuel : Nat) (ws : List (List String))
     (h : G.langUpTo n fuel = some ws) : ws.Nodup := by
-  sorry
+  obtain ⟨_, h2⟩ := foldlM_filter (fun w => G.cfgMem w fuel) (cands G n) [] ws h
+  subst h2
+  simp only [List.nil_append]
+  exact List.Nodup.filter _ (cands_nodup G n)
 
 end CFG
 end Pfl
